@@ -194,7 +194,9 @@ impl<K: Kit> Rig<K> {
         goal.mode.set(GoalMode::Script);
         goal.fail_at.set(sc.goal_fail_at);
         goal.fail_from.set(sc.goal_fail_from);
-        if sc.params.bias >= 1.0 {
+        if sc.params.bias >= 1.0 || sc.goal_fail_at.is_some() || sc.goal_fail_from.is_some() {
+            // (with a failing goal sampler a planner may fall back to draws the script did not foresee:
+            // that ends the call through the deadline and is judged from what the call returns)
             space.expire_when_exhausted.set(true);
         }
         if sc.params.pk == Pk::Connect {
@@ -214,7 +216,7 @@ impl<K: Kit> Rig<K> {
                 rig.goal.script.borrow_mut().push(sc.goal_root);
             }
             rig.drv.setup(rig.pd.clone(), rig.world.clone());
-            rig.space.expire_when_exhausted.set(sc.params.bias >= 1.0);
+            rig.space.expire_when_exhausted.set(sc.params.bias >= 1.0 || sc.goal_fail_at.is_some() || sc.goal_fail_from.is_some());
             oxmpl::verif::clock_reset(1_000_000);
         }
         rig
